@@ -156,7 +156,28 @@ def r03_2_3(rep: Report) -> None:
             for state in states:
                 forms.append((st, lin_atoms(_resolve(state, st.value, calls=False))))
     Flow(Disjunctive(_PC(upd=_upd), cap=128), on_stmt=_on).run(pe, [_PC.initial()])
+    def box_locals(fourcc: str) -> set[str]:
+        """locals of the fix-up that hold the `fourcc` box: every definition is a find_* lookup of it, or a
+        copy of such a local"""
+        names: set[str] = set()
+        for _ in range(3):
+            for a_ in ast.walk(pe):
+                if isinstance(a_, (ast.Assign, ast.AnnAssign)) and getattr(a_, 'value', None) is not None:
+                    tg_ = a_.targets[0] if isinstance(a_, ast.Assign) else a_.target
+                    v_ = a_.value
+                    if isinstance(tg_, ast.Name) and (
+                            (isinstance(v_, ast.Call) and (call_name(v_) or '').rsplit('.', 1)[-1].startswith('find_')
+                             and any(isinstance(x_, ast.Constant) and x_.value == fourcc for x_ in v_.args))
+                            or (isinstance(v_, ast.Name) and v_.id in names)):
+                        names.add(tg_.id)
+        return names
+    role_names = {n_: 'moof' for n_ in box_locals('moof')} | {n_: 'mdat' for n_ in box_locals('mdat')}
+
+    def by_role(key: str) -> str:
+        head, dot, rest = key.partition('.')
+        return role_names.get(head, head) + dot + rest
     for a, form in forms:
+        form = {by_role(k): v for k, v in form.items()}
         pos = {k for k, v in form.items() if v == 1}
         neg = {k for k, v in form.items() if v == -1}
         ok_ = pos == {'moof.position', 'moof.size', 'mdat.header_size'} and len(neg) == 1 and len(form) == 4 \
@@ -183,7 +204,7 @@ def r03_2_3(rep: Report) -> None:
                 continue
             if isinstance(e, ast.Compare) and len(e.ops) == 1 and isinstance(e.ops[0], ast.Eq):
                 for side in (e.left, e.comparators[0]):
-                    if need_deps <= _deps(fn, side):
+                    if need_deps <= {by_role(d_) for d_ in _deps(fn, side)}:
                         out.append(t)
                         break
         return out
